@@ -121,7 +121,7 @@ def parseOp (s : St) (toks : List String) : Option Op :=
   | "start" => some .start
   | "stop" => some .stop
   | "verify" => some .verify
-  | "obs" | "announce" | "diskcheck" | "magnet" | "crashcheck" => some .nop
+  | "obs" | "announce" | "diskcheck" | "magnet" | "crashcheck" | "reload" => some .nop
   | "persist" => some .persist
   | "waitstop" => some .waitstop
   | "trk" => some (.trk [])
@@ -309,6 +309,13 @@ def oracles (prev s : St) (impl : List (String × String)) (prevDials : Nat := 0
     (if priv && (get "dials").toNat?.getD 0 > prevDials then [s!"C19 private-torrent-dialled-exchanged-address dials={get "dials"}"] else []) ++
     (if priv && get "pexon" ≠ "-" && get "pexon" ≠ "" then [s!"C19 private-torrent-started-pex peers={get "pexon"}"] else []) ++
     (if priv && get "magnet" = "ok" then ["C19 private-torrent-exported-magnet"] else []) ++
+    -- the identity a torrent announces with survives a restart of the client (reload op: a second session on a
+    -- copy of the resume database); a private torrent added from a .torrent file stays private
+    ((commaList (get "reload")).filterMap fun e =>
+      if e.startsWith "error" then none
+      else if s.cfg.isPrivate && s.infoAtAdd && (e.splitOn ":priv:priv:").length < 2 then
+        some s!"C19 private-torrent-public-identity-after-reload entry={e}"
+      else none) ++
     (if s.cfg.isPrivate && s.infoAtAdd && get "pid" ≠ "" && get "pid" ≠ "priv" then [s!"C19 private-torrent-public-peer-id pid={get "pid"}"] else []) ++
     (if priv then impl.flatMap fun (k, v) =>
         if k.startsWith "p" && (k.drop 1).toString.toNat?.isSome then
